@@ -332,6 +332,20 @@ def weights(rc):
                             f"variables are reduced at other variables' states", construct=f"{q} zip misaligned")
             if not zips:
                 rc.fail(k, lp, f"{q}: cannot find where the configuration tuple is paired with the variables", construct=f"{q} zip")
+    # weight adjustment: the rounding slack goes to an entry that already has positive mass (the arg-max), never to a fixed position —
+    # a fixed position may hold probability 0, and the slack would make that state sampleable
+    aw = repo.func("pgmpy/utils/mathext.py", "_adjusted_weights")
+    W = aw.params[0]
+    adj = [n for n in walk_no_nested(aw.node) if isinstance(n, ast.AugAssign) and isinstance(n.target, ast.Subscript) and dotted(n.target.value) == W]
+    if not adj:
+        raise AnalysisError("_adjusted_weights: adjustment site not found")
+    for n in adj:
+        ix = n.target.slice
+        okix = isinstance(ix, ast.Call) and call_name(ix) in ("argmax", "nanargmax") and any(dotted(a) == W for a in list(ix.args) + ([ix.func.value] if isinstance(ix.func, ast.Attribute) else []))
+        rc.ob(f"_adjusted_weights: slack added at {norm(ix)} (arg-max of the weights: {okix})")
+        if not okix:
+            rc.fail(aw, n, f"_adjusted_weights adds the rounding slack at the fixed position `{norm(ix)}`: if that state has probability 0 it becomes sampleable "
+                    "(zero-probability states must never occur); the slack belongs to the arg-max entry", construct="adjusted weights slack position")
     rs = repo.module(SB).functions["_return_samples"]
     if not tm.has(rs.node, "_S[_v] = _S[_v].map(_M[_v])", {"_S": rs.params[0], "_M": rs.params[1]}):
         rc.fail(rs, rs.node, "each column is mapped through its own variable's number->name table", construct="_return_samples")
@@ -392,6 +406,8 @@ def defuse(rc):
     _sh.defuse_rule(rc, _sh.anchor_files("C07"))
 
 MUTANTS = [
+    dict(kind="break", name="slack-added-to-last-state", file="pgmpy/utils/mathext.py", expect="C07.weights",
+         old="        weights[compat_fns.argmax(weights)] += error", new="        weights[-1] += error"),
     dict(kind="break", name="gibbs-seed-after-start-state", file=SP, expect="C07.seed",
          old=_GS, new="        if start_state is None and self.state is None:\n            self.state = self.random_state()\n        elif start_state is not None:\n            self.set_start_state(start_state)\n\n        if seed is not None:\n            np.random.seed(seed)\n\n        types ="),
     dict(kind="break", name="generate-sample-filter-by-index", file=SP, expect="C07.latents",
